@@ -11,6 +11,7 @@ mod c06;
 mod c08;
 mod c09;
 mod c16;
+mod c18;
 
 fn main() {
     let args: Vec<String> = std::env::args().collect();
@@ -35,6 +36,7 @@ fn main() {
         "C08" => c08::main(tier, seed, n),
         "C09" => c09::main(tier, seed, n),
         "C16" => c16::main(tier, seed, n),
+        "C18" => c18::main(tier, seed, n),
         p => { eprintln!("unknown property {}", p); std::process::exit(2); }
     }
 }
